@@ -114,10 +114,11 @@ CHECKS = {
         design="5/C02"),
     "C04": dict(
         text="Theorems (Coq, every directory tree, exclusion predicate abstract): the modules of a walk are exactly root::path of every non-excluded .py file and directory none of whose ancestors down from the start "
-             "is excluded (C04_modules); parsed files are such modules; graph nodes = modules + every ancestor (C04_nodes), closed under ancestors (C04_ancestor_closed); sub modules = nodes whose name extends the module (C04_sub_modules). "
+             "is excluded (C04_modules); parsed files are such modules; graph nodes = modules + every ancestor (C04_nodes), closed under ancestors (C04_ancestor_closed); sub modules = nodes whose name extends the module (C04_sub_modules); "
+             "scanning a sub-directory = scanning the whole root restricted to that sub-tree, for modules (C04_subscan_modules) and for imports (C04_subscan_imports: relative imports unconditionally, absolute names when fully qualified only). "
              "Tie to /repo: random trees (depth<=5, prefix-sibling names, packages with/without __init__, empty dirs, non-.py files) x EVERY directory as module_path: modules vs tree, sub-module sets, sub scan vs restricted root scan, "
              "module-object entry point on really imported packages, all vs the model scan.",
-        note="The sub-scan = restricted-root-scan statement and the module-object entry point are checked by correspondence only (no theorem). pathlib/os modelled not verified. Trusted: Coq kernel, extraction, driver, harness.",
+        note="The module-object entry point is checked by correspondence only (it is dirname(__file__) of really imported packages). Import names readable both as root-qualified and as relative to module_path's parent are outside the claim (hypothesis unamb). pathlib/os modelled not verified. Trusted: Coq kernel, extraction, driver, harness.",
         technique="Coq proof (rose-tree induction over directory trees) + correspondence on real directory trees",
         design="5/C04"),
     "C06": dict(
